@@ -221,6 +221,8 @@ func R7(p *core.Prog) *core.Result {
 			r.Fail(".TYPE-SCOPE", "ubjson."+n, p.Pos(f.Pos()), "ubjson "+n+" completes without popping the element-type stack (valueState): the announced element type leaks to whatever follows the container", "")
 		}
 	}
+	// the element type is popped iff the popped frame is a typed container, wherever that is decided by a test
+	r7FramePop(p, r, ctx)
 	// push/pop reachability for every parser stack of the three codecs
 	for _, pk := range []string{"json", "cborl", "ubjson"} {
 		fm, err := buildFamily(p, pk)
